@@ -43,6 +43,15 @@ def strategy(hazards):
 
 
 def run_case(case, ctx):
+    if case and case[0] == "slots":
+        name, text, want = next(t for t in slot_boundary_texts() if t[0] == case[1])
+        r = ctx.worker("rel").run(text, watchdog_s=300)
+        from ..runner import Failure
+        fail = None
+        if r.get("outcome") != "timeout" and (r.get("outcome") != "ok" or r.get("stdout") != want):
+            fail = Failure("%s/slot-boundary/%s" % (PROPERTY, name.rsplit("-", 1)[0]), "%s: expected %r, got %s %r" %
+                           (name, want, r.get("outcome"), (r.get("stdout") or "")[:200]), {})
+        return Outcome(key="slots:" + name, nontrivial=True, labels=["slot-boundary"], failure=fail, runs=1)
     prog, sched, vsel = case
     files = None
     texts = None
@@ -69,3 +78,51 @@ def run_case(case, ctx):
     if fail is None:
         fail = compare_model(PROPERTY, res, on, src, "caches enabled on " + variant)
     return Outcome(key=src + repr(sched), nontrivial=nontrivial, labels=labels, failure=fail, sample=short(src, 900), runs=2)
+
+
+# ------------------------------------------------------------------------------------------- slot number boundaries
+def slot_boundary_texts():
+    """Inline cache slots are numbered per module with 32 bit operands: sites whose numbers differ by 65536 must not
+    share an entry. Eight sites, then a never executed function holding n filler sites, then eight more sites: for n
+    near 65536 several of the later sites have numbers congruent to earlier ones. -> [(name, text, expected stdout)]"""
+    out = []
+    ms = "".join("a%d() { return \"a%d\"; } b%d() { return \"b%d\"; } " % (k, k, k, k) for k in range(8))
+    fs = "".join("self.p%d = \"p%d\"; self.q%d = \"q%d\"; " % (k, k, k, k) for k in range(8))
+    cls = "class A { init() { %s} %s}\n" % (fs, ms)
+    calls = "let a = A();\n" + "".join("print(first%d(a)); print(second%d(a)); print(first%d(a));\n" % (k, k, k) for k in range(8))
+    for n in (65530, 65536, 65540):
+        firsts = "".join("fn first%d(a) { return a.a%d(); }\n" % (k, k) for k in range(8))
+        seconds = "".join("fn second%d(a) { return a.b%d(); }\n" % (k, k) for k in range(8))
+        filler = "fn filler(a) {\n" + "a.a0();\n" * n + "}\n"
+        want = "".join("a%d\nb%d\na%d\n" % (k, k, k) for k in range(8))
+        out.append(("invoke-slots-%d" % n, cls + firsts + filler + seconds + calls, want))
+        firsts = "".join("fn first%d(a) { return a.p%d; }\n" % (k, k) for k in range(8))
+        seconds = "".join("fn second%d(a) { return a.q%d; }\n" % (k, k) for k in range(8))
+        filler = "fn filler(a) {\n" + "a.p0;\n" * n + "}\n"
+        want = "".join("p%d\nq%d\np%d\n" % (k, k, k) for k in range(8))
+        out.append(("property-slots-%d" % n, cls + firsts + filler + seconds + calls, want))
+    return out
+
+
+def extra(tier, ctx):
+    from ..runner import Failure, enc
+    out = []
+    texts = slot_boundary_texts()
+    if tier == "quick":
+        texts = [t for t in texts if t[0].endswith("65530")]
+    for name, text, want in texts:
+        fail = None
+        runs = 0
+        for variant in (("dbg", "rel") if tier == "thorough" else ("rel",)):
+            r = ctx.worker(variant).run(text, watchdog_s=300)
+            runs += 1
+            if r.get("outcome") == "timeout":
+                break
+            if r.get("outcome") != "ok" or r.get("stdout") != want:
+                fail = Failure("%s/slot-boundary/%s" % (PROPERTY, name.rsplit("-", 1)[0]),
+                               "%s on %s: expected %r, got outcome %s stdout %r stderr %r" %
+                               (name, variant, want, r.get("outcome"), (r.get("stdout") or "")[:200], (r.get("stderr") or "")[-300:]),
+                               {"case": enc(("slots", name))})
+                break
+        out.append(Outcome(key="slots:" + name, nontrivial=True, labels=["slot-boundary"], failure=fail, runs=runs))
+    return out
